@@ -6,7 +6,7 @@ result: numbers as Decimal(x).as_tuple() (sign, coefficient, exponent), strings 
 points, types as small codes.  Whether a result is right is decided by coq/Judge/JC16.v."""
 from lib import S, observe_call
 
-GEN = ["ConversionParams"]
+GEN = ["ConversionParams", "ConversionBodyParams"]
 RULE = ("digit_string: every v in [0, 10^n) for n <= 3 (quick) / 4 (thorough) as int, float and Decimal; boundary values "
         "(0, 1, 10^(n-1)-1, 10^(n-1), 10^n-1) and random v for n = 1..20 as int, float (the float's own exact value is the input), "
         "Decimal in plain, trailing-zero-fraction and scientific spelling; n = 4300 at the CPython int->str digit limit. "
